@@ -268,7 +268,19 @@ def check_pairs(run, m, F, E):
             r[0] += 1
             v = cit.ret
             if isinstance(v, IntV) and not v.lin.t and v.lin.c == 0:
-                r[1].append('convert returns success in the middle of the input (cursor < size) [%s]' % units)
+                # the measure iteration this pass continues from had the cursor inside the input; a success return is a finding only
+                # if the returning path is really consistent with that (loops that count the remaining units down instead of
+                # comparing the cursor with the end reach their exit only at the end, which the path's facts then imply)
+                cst = cit.st
+                at_end = cst.is_ge0(Lin.atom('cur') - Lin.atom('n'))
+                if at_end is True:
+                    pass
+                else:
+                    env = cst.find_model([Lin.atom('n') - Lin.atom('cur')], lambda w: w[0] > 0)
+                    if env is not None and not [k for k in env if not isinstance(k, str) or k not in ('cur', 'n', 'outpos')] or at_end is False:
+                        r[1].append('convert returns success in the middle of the input (cursor < size) [%s]' % units)
+                    else:
+                        r[2].append('a success return of convert is not decided to happen only at the end of the input')
             elif not isinstance(v, IntV) and v is not None:
                 r[2].append('return value of convert not tracked')
         elif kind == 'abort':
